@@ -154,6 +154,11 @@ def run(ctx):
         ext_rec = peg.recursive_rules(rules, lambda n: n.split('::')[-1])
         look_ref = lambda n: REFERENCE.get(n)
         look_ext = lambda n: rules.get(FP + n)
+        # ordered choice: where the reference rule exists as a function and only the *order* of overlapping alternatives differs,
+        # the set of sequences is the same but a PEG tries them in order - that is a different parser
+        for name, (ok, why, p, g) in structural.items():
+            if not ok and 'ordered choice differs' in why:
+                ctx.fail('P1.rule', name, loc(f.hir[p]['body']), 'extracted `%s = %s`, reference `%s`: %s' % (name, peg.show(g), peg.show(REFERENCE[name]), why))
         for name in sorted({'filtexpr', 'mv_filtexpr'} | ref_rec | ext_rec):
             p = FP + name
             where = loc(f.hir[p]['body']) if p in f.hir else ''
